@@ -453,4 +453,70 @@ theorem stdTable_spec (fixTaut : Bool) (w : Nat → Int) : ∀ (rules : List Std
                 | crash => exact fun _ => trivial
             · exact step m' ts.labels (setUnion ts.fixed st.hs) hv
 
+/-- the atom part of a table run, without weights: for a reached state the atoms are the atoms that came in -/
+def AtomsKept (ts : TState) : Outcome TState → Prop
+  | .done ts' => ts'.mol.ids = ts.mol.ids ∧ skeleton ts'.mol = skeleton ts.mol
+  | .pause _ ts' => ts'.mol.ids = ts.mol.ids ∧ skeleton ts'.mol = skeleton ts.mol
+  | .crash => True
+
+theorem atomsKept_of_spec (w : Nat → Int) (ts : TState) : ∀ o, OutcomeSpec w ts o → AtomsKept ts o := by
+  intro o
+  cases o with
+  | done x => intro h; exact ⟨h.1, h.2.1⟩
+  | pause k x => intro h; exact ⟨h.1, h.2.1⟩
+  | crash => intro _; trivial
+
+/-- weights that satisfy the side condition of `stdTable_spec` for any rule list -/
+def weightsOf (rules : List StdRule) (ri : Nat) (i : Nat) : Int :=
+  match rules[i - ri]? with
+  | some r => chargeSum r
+  | none => 0
+
+theorem stdTable_atoms (fixTaut : Bool) (rules : List StdRule) (ri : Nat) (ts : TState) (hnd : ts.mol.ids.Nodup) :
+    AtomsKept ts (stdTable fixTaut rules ri ts) := by
+  apply atomsKept_of_spec (weightsOf rules ri)
+  apply stdTable_spec fixTaut (weightsOf rules ri) rules ri ts _ hnd
+  intro i r hi
+  simp [weightsOf, hi]
+
+/-! ## the whole `standardize` (after `fix_resonance`) -/
+
+/-- the table state reached by `standardizeFrom`, if any -/
+def reachedS : Outcome (Nat × Bool × List Nat × TState) → Option TState
+  | .done s => some s.2.2.2
+  | .pause _ s => some s.2.2.2
+  | .crash => none
+
+theorem standardizeFrom_skeleton (fixTaut : Bool) : ∀ (fuel phase ri : Nat) (fs : Bool) (allFixed : List Nat) (ts ts' : TState),
+    ts.mol.ids.Nodup → reachedS (standardizeFrom fixTaut fuel phase ri fs allFixed ts) = some ts' →
+    ts'.mol.ids = ts.mol.ids ∧ skeleton ts'.mol = skeleton ts.mol := by
+  intro fuel
+  induction fuel with
+  | zero => intro phase ri fs allFixed ts ts' _ h; simp [standardizeFrom, reachedS] at h
+  | succ fuel ih =>
+    intro phase ri fs allFixed ts ts' hnd h
+    rw [standardizeFrom] at h
+    split at h
+    · simp only [reachedS, Option.some.injEq] at h; subst h; exact ⟨rfl, rfl⟩
+    · split at h
+      · exact ih _ _ _ _ _ _ hnd h
+      · revert h
+        cases hst : stdTable fixTaut ((tableOfPhase phase).drop ri) ri { ts with fixed := [] } with
+        | crash => intro h; simp [reachedS] at h
+        | pause next x =>
+          intro h
+          simp only [reachedS, Option.some.injEq] at h
+          subst h
+          -- only the atom part of the specification is used: it does not depend on the weights
+          have := stdTable_atoms fixTaut ((tableOfPhase phase).drop ri) ri { ts with fixed := [] } hnd
+          rw [hst] at this
+          exact this
+        | done x =>
+          intro h
+          have hx := stdTable_atoms fixTaut ((tableOfPhase phase).drop ri) ri { ts with fixed := [] } hnd
+          rw [hst] at hx
+          have hnd' : x.mol.ids.Nodup := by rw [hx.1]; exact hnd
+          obtain ⟨a, b⟩ := ih _ _ _ _ _ _ hnd' h
+          exact ⟨a.trans hx.1, b.trans hx.2⟩
+
 end ChythonModel.Proofs.C14
